@@ -189,6 +189,7 @@ def run(res):
         res.violation('proof obligation no longer checks: ' + p, {'theorem_or_module': p}, no_input=True)
     res.coverage.update({
         'evaluations': len(cases), 'distinct_nontrivial': len(distinct),
+        'same_print_different_tree_triples': ncoll,
         'rule': 'every CTL state / LTL path / CTL* formula of depth <=1 (%d, exhaustive), depth 2 (sampled in quick), '
                 'random to depth 6 with n-ary and/or; distinct_nontrivial = distinct formulas that the rewriting '
                 'changes' % n_exh,
